@@ -211,6 +211,9 @@ pub struct Worklist {
     pub exhausted: bool,
     /// children were discarded because the worklist was full: the enumeration is a sample
     pub dropped: bool,
+    /// when set, only this thread is ever preempted (switches away from other threads happen at their free
+    /// points only): a deeper bound on one victim thread stays enumerable
+    pub victim: Option<usize>,
     rng: StdRng,
 }
 
@@ -219,7 +222,7 @@ const WL_MAX: usize = 150_000;
 impl Worklist {
     pub fn new(bound: usize, seed: u64) -> Worklist {
         Worklist { queue: Vec::new(), cur: (Vec::new(), 0), bound, started: false, exhausted: false, dropped: false,
-                   rng: StdRng::seed_from_u64(seed) }
+                   victim: None, rng: StdRng::seed_from_u64(seed) }
     }
 
     pub fn next_prefix(&mut self) -> Option<Vec<usize>> {
@@ -247,7 +250,8 @@ impl Worklist {
         let chosen: Vec<u8> = steps.iter().map(|s| s.chosen as u8).collect();
         for (i, s) in steps.iter().enumerate().skip(plen) {
             for &t in &s.enabled {
-                if t != s.chosen && Some(t) != s.spin && pre + cost(s.cont, t) <= self.bound {
+                if t != s.chosen && Some(t) != s.spin && pre + cost(s.cont, t) <= self.bound
+                    && (cost(s.cont, t) == 0 || self.victim.is_none() || s.cont == self.victim) {
                     if self.queue.len() >= WL_MAX {
                         // keep a uniform sample: the newcomer replaces a random entry half of the time
                         self.dropped = true;
